@@ -68,7 +68,7 @@ def setup_worker():
 def plan(tier):
     if tier == 'thorough':
         return {'cases': 120000, 'chunk': 100, 'budget_s': 1500, 'case_timeout_s': 60, 'minimise_budget_s': 120}
-    return {'cases': 12000, 'chunk': 50, 'budget_s': 100, 'case_timeout_s': 60, 'minimise_budget_s': 60}
+    return {'cases': 12000, 'chunk': 25, 'budget_s': 70, 'case_timeout_s': 60, 'minimise_budget_s': 60}
 
 
 # ------------------------------------------------------------------------------------------ generators
@@ -398,7 +398,7 @@ def run_memapi(case):
                 cb = _Cb(op[3], [1, 0, 1, 1, 0, 0, 1, 0])
                 C.set_engine_env({'engine': 'native', 'env': op[4]})
                 rb, wb = cb.read_bit, cb.write_bit
-                rc0 = (sys.getrefcount(cb), sys.getrefcount(IOReadOnEOF))
+                rc0 = (sys.getrefcount(cb), sys.getrefcount(rb), sys.getrefcount(wb))
                 old, rem = _short_timer(0.25)
                 try:
                     try:
@@ -410,7 +410,7 @@ def run_memapi(case):
                 except _ShortStop:
                     _restore_timer(old, rem)
                     outcomes.append('run:stopped')
-                rc1 = (sys.getrefcount(cb), sys.getrefcount(IOReadOnEOF))
+                rc1 = (sys.getrefcount(cb), sys.getrefcount(rb), sys.getrefcount(wb))
                 if rc0 != rc1:
                     return outcomes, ops_total, {'clause': 'refcount', 'expected': list(rc0), 'observed': list(rc1)}
         except (ValueError, TypeError, OverflowError, MemoryError, IOReadOnEOF, AssertionError) as e:
@@ -476,7 +476,13 @@ def run(case):
             path = enginesim.image_path()
             C.write_image(case, path)
             for cfg in case['configs']:
-                obs, dev = C.run_engine(case, cfg, path, probe_mode='off')
+                # the device's writes turn the program into another, possibly endless, program: stop it by wall time
+                try:
+                    with kernel.short_timer(0.4):
+                        obs, dev = C.run_engine(case, cfg, path, probe_mode='off')
+                except kernel.ShortStop:
+                    states.add(f"devmem|{enginesim.cfg_class(cfg)}|stopped-by-timer")
+                    continue
                 steps += obs['ops'] or 0
                 states.add(f"devmem|{enginesim.cfg_class(cfg)}|{obs['outcome'][0]}:{obs['outcome'][1]}")
             nontrivial = True
